@@ -208,8 +208,8 @@ class ExecMixin:
             o = self.force(st, self.ev(st, t.value))
             if not isinstance(o, HeapRef):
                 raise OutsideSubset(f"attribute store on {o!r}")
-            if o.id in st.frozen:
-                raise OutsideSubset("store to an object already passed to a contract by value")
+            # a snapshot handed to a contract by value stays what it was; the next by-value use takes a new snapshot
+            st.frozen.pop(o.id, None)
             st.obj(o).fields[t.attr] = v
         elif isinstance(t, ast.Subscript):
             self.assign_subscript(st, t, v)
@@ -245,6 +245,13 @@ class ExecMixin:
             m = self.classes.get(v.t.cls) or {}
             if m.get("tuplelike"):
                 return [self.read_field(st, v.e, f, self.field_T(v.t.cls, f)) for f in m["tuplelike"]]
+        if isinstance(v, Z) and v.t.kind == "seq" and isinstance(t, (ast.Tuple, ast.List)) \
+                and not any(isinstance(e, ast.Starred) for e in t.elts):
+            # a, b = <sequence of unknown length>: ValueError unless the length is exactly the number of targets
+            n = len(t.elts)
+            if not st.spec and not self.branch(st, z3.Length(v.e) == n, "unpack-len"):
+                raise PyRaise(self.make_exc(st, "ValueError", []))
+            return [Z(v.t.args[0], smt.seq_nth(v.e, z3.IntVal(i))) for i in range(n)]
         raise OutsideSubset(f"unpacking of {v!r}")
 
     def assign_subscript(self, st, t, v):
